@@ -44,7 +44,8 @@ def new_kwargs(cfg):
         kw['udf'] = '2.60'
     if cfg.get('xa'):
         kw['xa'] = True
-    for k in ('sys_ident', 'vol_ident', 'app_use', 'vol_set_ident', 'pub_ident_str', 'preparer_ident_str'):
+    for k in ('sys_ident', 'vol_ident', 'app_use', 'vol_set_ident', 'pub_ident_str', 'preparer_ident_str', 'app_ident_str', 'copyright_file', 'abstract_file', 'bibli_file',
+              'set_size', 'seqnum', 'vol_expire_date'):
         if cfg.get(k):
             kw[k] = cfg[k]
     return kw
